@@ -971,4 +971,82 @@ theorem c16_import_export_reward_partial (st : RewardStores) (h : rewardInv st =
   subst h0 h1 h2 h3
   exact ⟨f3, f4, f2, f1, f5, trivial, f7⟩
 
+-- =============================================================================================
+-- the hypotheses are satisfiable: concrete non-trivial reachable states
+
+/-- two markets, own and delegated deposits, a withdrawal by a depositor who created the deposit himself, two bets, one
+    market resolved and settled -/
+def exampleState : State :=
+  run { cexBase with bal := [(1, 5000), (2, 5000)] } [.marketAdd 0 cexTk 1 50 5000 [11, 12] MS_ACTIVE, .marketAdd 0 cexTk 2 50 5000 [21, 22, 23] MS_ACTIVE,
+    .deposit 1 cexTk 1 500 0, .grant 2 1 0 1000 none, .deposit 1 cexTk 2 400 2, .withdraw 1 cexTk 1 1 WM_PARTIAL 50 0,
+    .send 1 6 300, .send 1 7 300,
+    .wager 6 cexTk 1 100 { market := 1, odds := 11, oddsVal := some ⟨2 * PREC⟩, mult := ⟨PREC⟩, allOdds := [(11, ⟨PREC⟩), (12, ⟨PREC⟩)], oddsTypeOk := true },
+    .wager 7 cexTk 2 50 { market := 2, odds := 22, oddsVal := some ⟨3 * PREC⟩, mult := ⟨PREC⟩, allOdds := [(21, ⟨PREC⟩), (22, ⟨PREC⟩), (23, ⟨PREC⟩)], oddsTypeOk := true },
+    .endBlock, .marketResolve cexTk 1 100 MS_DECLARED [11], .endBlock, .newBlock 3 200, .endBlock]
+
+example : marketInv exampleState = true ∧ houseInv exampleState = true ∧ betInv exampleState = true ∧ obInv exampleState = true ∧
+    exampleState.params.valid = true ∧ exampleState.bets.length = 2 ∧ exampleState.settled.length = 1 ∧
+    exampleState.pending.length = 1 ∧ exampleState.withdrawals.length = 1 ∧ exampleState.deposits.length = 2 := by
+  decide +kernel
+
+example : importCore (exportCore exampleState) (freshCore exampleState) = some exampleState :=
+  c16_core_restart exampleState (by decide +kernel) (by decide +kernel) (by decide +kernel) (by decide +kernel)
+
+def exampleOvm : Ovm.State :=
+  { vault := [1, 9, 17, 25], count := 2,
+    active := [{ id := 2, creator := 0, keys := [0, 8, 16, 32], leader := 0, votes := [(1, Ovm.Vote.yes)], startTS := 5, finishTS := 0, result := Ovm.Result.unspecified }],
+    finished := [{ id := 1, creator := 0, keys := [0, 8, 16, 40], leader := 0, votes := [], startTS := 1, finishTS := 9, result := Ovm.Result.expired }] }
+
+example : ovmInv exampleOvm = true ∧ importOvm (exportOvm exampleOvm) = exampleOvm ∧ validateOvm false (exportOvm exampleOvm) = 0 := by
+  decide
+
+/-- one subaccount (id 1, owner 3) with two locked balances -/
+def exampleSub : Subaccount.State :=
+  { nextId := 2,
+    ownerMap := fun o => if o = 3 then some 1001 else none,
+    subMap := fun a => if a = 1001 then some 3 else none,
+    subs := fun a => if a = 1001 then some { sum := { deposited := 300, spent := 20 }, locks := [(900, 200), (500, 100)] } else none }
+
+example : SubInv exampleSub where
+  idpos := by decide
+  dom := by
+    intro a o h
+    refine ⟨1, by decide, ?_⟩
+    unfold exampleSub at h
+    simp only at h
+    split at h
+    · assumption
+    · cases h
+  subs := by
+    intro a
+    unfold exampleSub
+    simp only
+    split <;> simp
+  own := by
+    intro o a
+    unfold exampleSub
+    simp only
+    constructor
+    · intro h
+      split at h
+      · rename_i ho
+        cases h
+        simp [ho]
+      · cases h
+    · intro h
+      split at h
+      · rename_i ha
+        cases h
+        simp [ha]
+      · cases h
+  locks := by
+    intro a sub h
+    unfold exampleSub at h
+    simp only at h
+    split at h
+    · cases h
+      unfold DistinctTs
+      simp
+    · cases h
+
 end Sge.Genesis
